@@ -53,6 +53,12 @@ CHECKS = {
    text="Generated-input search: for trees parsed from generated statements the multiset of (type, content) of nodes handed to ast.Inspect's callback must equal the multiset of node-typed values reachable by reflection through every exported field - missing and extra nodes are both violations. Exhaustive sub-check: for every node type of package ast and every field that can hold a node, a marker planted in that field must be visited (the registry is regenerated from the tree under test, so new types and fields are covered).",
    note="Trusted: 'part of the tree' = reachable through exported fields; node = T or *T implements ast.Node; empty-interface payload fields are not node holders. One listed finding (window frame bounds) is pinned by the existing suite and therefore not repaired.",
    design="4/C14"),
+ "C08": dict(
+   technique="stateful property-based testing: generated operation histories on one tokenizer and one parser with a fresh, identically configured instance as the reference model (probe comparison after the history)",
+   level="exploration",
+   text="Generated-history search: sequences of tokenize / parse (five entry points, valid, invalid, failing deep inside nesting, over the depth limit, cancelled at a drawn poll) / option changes / Reset / Release / pool Put->Get on one instance, followed by probe calls whose tokens, comments, dialect, tree and full error text must equal those of fresh instances configured as the current holder did. Probes include an input exactly as deep as a fresh parser accepts (so a leak of one recursion level shows), a dialect-sensitive statement and stray semicolons. Pool identity is forced by pinning the goroutine and pausing GC, and counted.",
+   note="Trusted: sync.Pool returns the just-released object on a pinned goroutine (measured per run: pool_identity_hit_* classes); Release and Tokenizer.Reset are documented to keep configuration.",
+   design="4/C08"),
 }
 
 def main():
